@@ -497,8 +497,11 @@ CRAM_TEMPLATES = {
     "f": ("    ", 0),     # the indentation and two blanks: an expectation of two blanks
     "s": (" ", 0),        # one blank: unindented text
     "n": ("  [99999999999]", 0),   # a bracketed number that is no exit code (beyond i32): an expectation
+    "t": ("t", 1, " \t"),  # a title line that ends in a blank and a tab
+    "l": (" t", 1),        # a title line that starts with one blank (less than the indentation)
 }
 ODD_TITLES = "AZONs"
+SPACED_TITLES = "tl"      # titles with surrounding whitespace: the title is the line exactly as written
 
 
 def cram_line(ctx, t, i):
@@ -533,13 +536,13 @@ def cram_reference(seq):
                 return "error"
             in_command = False
             continue
-        if t == "T" or t in ODD_TITLES:
+        if t == "T" or t in ODD_TITLES or t in SPACED_TITLES:
             if cur is not None:
                 tests.append(cur)
                 cur = None
             elif orphan:
                 return "error"
-            title, title_fresh = (i, True) if t == "T" else ("odd", True)     # how an oddly indented line reads as a title is left open
+            title, title_fresh = (i, True) if (t == "T" or t in SPACED_TITLES) else ("odd", True)     # how an oddly indented line reads as a title is left open
             in_command = False
             continue
         if t == "C":
@@ -687,6 +690,10 @@ def h_cram_parse(max_len, orphan=False):
         # whitespace-only lines: expectations when indented, unindented text otherwise
         for s_ in cram_sequences(min(max_len, 4), "TBCXefs"):
             if s_ not in seen and any(c in s_ for c in "efs") and cram_reference(s_) != "error":
+                seqs.append(s_)
+                seen.add(s_)
+        for s_ in cram_sequences(min(max_len, 4), "TtlCXB"):
+            if s_ not in seen and any(c in s_ for c in SPACED_TITLES) and cram_reference(s_) != "error":
                 seqs.append(s_)
                 seen.add(s_)
         for s_ in cram_sequences(min(max_len, 4), "TCXRn"):
